@@ -224,10 +224,14 @@ def _one(sc, r):
         # deterministic classifier: is every wrong cell in the first interior layer next to a PML slab?
         wrong = diff > tol * scale
         near = _first_layer_next_to_pml(mask)
+        near2 = sim.near_pml(b_rev, 2)
+        nine_comp = any(np.asarray(x).ndim == 4 and np.asarray(x).shape[0] == 9 for x in (ie, im))
         mech = None
         if sorted(rev_steps) == list(range(-1, T)) and wrong.any() and not (wrong & ~near[None]).any():
             mech = "reverse-sweep-extra-step-minus-one"
-        elif sorted(rev_steps) == list(range(T)) and near_pml_tensor:
+        elif sorted(rev_steps) == list(range(T)) and nine_comp and meta["pml_faces"] and (near_pml_tensor or not (wrong & ~near2[None]).any()):
+            # 9-component runs: the anisotropic stencil (and with it the gradient w.r.t. the off-diagonal entries of
+            # every cell) reads curl values two cells away, i.e. inside the un-reconstructed PML for cells next to it
             mech = "full-tensor-near-pml"
         r.violate(
             f"reversible gradient w.r.t. {names[i]} differs from checkpointed autodiff: rel err {err:.3e}",
